@@ -63,7 +63,7 @@ def _judge(ctx, prop, scripts, viol, drift):
         ctx.add_violation(s, {"clause": v.get("clause"), "kind": v.get("kind"), "op": v.get("op"), "line": v.get("line"),
                               "step": v.get("step"), "detail": v.get("detail")},
                           replay={"driver": "vh-folder", "trace_module": "Trace_Folder",
-                                  "script": scripts[r - 1] if r and r <= len(scripts) else None})
+                                  "script": dict(scripts[r - 1], loc=scripts[r - 1].get("loc", r % 3)) if r and r <= len(scripts) else None})
     for d in drift:
         ctx.add_drift({"clause": d.get("clause"), "kind": d.get("kind"), "op": d.get("op"), "run": d.get("run"),
                        "step": d.get("step"), "detail": d.get("detail")})
